@@ -3,6 +3,14 @@
 /verif/seeded/<seed>/patch.diff, runs ./check for the property (or the given ones) with VERIF_REPO, removes the worktree.
 usage: seedcheck.py <seed-id e.g. C16-2> [Cxx ...]    Prints one line per check; records result in seeded/<seed>/detect.json"""
 import json, os, subprocess, sys
+def clean_alt(wt):
+    """remove the per-scratch-tree Kani / replay build directories of the driver (named by md5 of the tree's path)"""
+    import glob, hashlib, shutil
+    h = hashlib.md5(wt.encode()).hexdigest()[:8]
+    for d in glob.glob("/verif/.build/kani/*-" + h) + glob.glob("/verif/.build/kani-alt/*-" + h) + glob.glob("/verif/.build/replay-" + h):
+        shutil.rmtree(d, ignore_errors=True)
+
+
 seed = sys.argv[1]
 props = sys.argv[2:] or [seed.split("-")[0]]
 wt = "/tmp/sw/%s" % seed
@@ -27,3 +35,4 @@ try:
     json.dump(res, open("/verif/seeded/%s/detect.json" % seed, "w"), indent=1)
 finally:
     subprocess.run(["git", "-C", "/repo", "worktree", "remove", "--force", wt])
+    clean_alt(wt)
